@@ -991,7 +991,7 @@ func (fs *gFs) apply(o gOp) {
 	}
 }
 
-// setMetaOpsGo mirrors set_meta_ops.
+// setMetaOpsGo mirrors set_meta_ops (the backup is made only of a usable CURRENT).
 func setMetaOpsGo(v []dirEnt, num int64) []gOp {
 	content := manifestName(num) + "\n"
 	p := fmt.Sprintf("CURRENT.%d", num)
@@ -1001,6 +1001,17 @@ func setMetaOpsGo(v []dirEnt, num int64) []gOp {
 			b := unhexs(e.Data)
 			if b == content {
 				return nil
+			}
+			usable := false
+			if len(b) > 0 && b[len(b)-1] == '\n' {
+				if fd, ok := storage.VerifParseName(b[:len(b)-1]); ok {
+					if g, ok := storage.VerifGenName(fd); ok {
+						usable = hasEnt(v, g)
+					}
+				}
+			}
+			if !usable {
+				return sw
 			}
 			return append([]gOp{{0, "CURRENT.bak", ""}, {1, "CURRENT.bak", b}, {2, "CURRENT.bak", ""}}, sw...)
 		}
